@@ -311,7 +311,7 @@ def classify_c02(m):
     insertion = parts["inp"] in ("*", "\u2205")
     if out == "budget" and insertion:        # the budget runs out at whichever loop head is reached last inside the non-terminating insertion loop
         env = parts["ctx"] + " " + parts["exc"]
-        if any(ch in env for ch in "$#%(<\u27e8") or not parts["ctx"] or "$" in parts["out"] or "%" in parts["out"]:
+        if any(ch in env for ch in "$#%(<\u27e8") or not parts["ctx"].replace("_", "").strip() or "$" in parts["out"] or "%" in parts["out"]:
             return "C02-KF1"
     if out == "budget" and not insertion and "$" in parts["inp"]:
         return "C02-KF4"
